@@ -430,7 +430,7 @@ struct Engine : public vf::Engine {
             if (!HEAP.find(W.slots[i].p)) { fail(W, W.slots[i].tracked ? "C04" : "C05", "released_while_held", sg("after", opName), sfmt("after op %zu (%s): the memory of the block held in slot %d (size %zu) was returned to the platform", opIdx, opName, i, W.slots[i].size)); W.slots[i].live = false; continue; }
             if (!checkPat(W.slots[i], W.slots[i].size, &bad)) { fail(W, "C05", "pattern_intact", sg("after", opName), sfmt("after op %zu (%s): byte %zu of live block in slot %d (size %zu) was overwritten", opIdx, opName, bad, i, W.slots[i].size)); W.slots[i].live = false; }
         }
-        if (HEAP.foreignFrees) { fail(W, "C05", "platform_free_of_unknown_address", sg("after", opName), sfmt("after op %zu (%s): the platform free/realloc was handed %ld address(es) that are not the start of a block it had served and not yet got back", opIdx, opName, HEAP.foreignFrees)); HEAP.foreignFrees = 0; }
+        if (HEAP.foreignFrees) { fail(W, "C06", "platform_free_of_unknown_address", sg("after", opName), sfmt("after op %zu (%s): releasing or reallocating a block handed the platform %ld address(es) it had not served (glibc aborts on that)", opIdx, opName, HEAP.foreignFrees)); fail(W, "C05", "platform_free_of_unknown_address", sg("after", opName), sfmt("after op %zu (%s): the platform free/realloc was handed %ld address(es) that are not the start of a block it had served and not yet got back", opIdx, opName, HEAP.foreignFrees)); HEAP.foreignFrees = 0; }
         if (CTX.bufOverflow) { fail(W, "C14", "buffer_bounds", sg("after", opName), sfmt("after op %zu (%s): %s", opIdx, opName, CTX.bufOverflowDetail.c_str())); CTX.bufOverflow = false; }
         if (HEAP.undersized) { fail(W, "C05", "platform_request_too_small", sg("after", opName), sfmt("op %zu (%s): user asked for %zu bytes, the platform was asked for %zu", opIdx, opName, HEAP.undersizedWanted, HEAP.undersizedGot)); HEAP.undersized = false; }
         if (CTX.nullMemcpy) { fail(W, strcmp(opName, "strdup") == 0 && W.d->profile == "oom" ? "C15" : "C05", "copy_through_null", sg("op", opName), sfmt("op %zu (%s): memory was copied through a NULL pointer (failed allocation not checked)", opIdx, opName)); CTX.nullMemcpy = false; }
@@ -687,7 +687,10 @@ struct Engine : public vf::Engine {
                 break;
             }
             case H_REALLOC: {
-                if (!S.live || S.family != 2 || !S.p) break;
+                if (!S.live || !S.p) break;
+                // a block from new / new[] handed to realloc: with allocation type checking switched off that is no misuse and must simply work (the block is a malloc-family block afterwards)
+                if (S.family != 2 && !(W.d->profile == "misuse" && !W.typecheck && S.tracked)) break;
+                if (S.family != 2) fired("realloc_of_a_block_from_new_with_type_checking_off");
                 clearBuffer(W);
                 if (!S.tracked) {          // accounting was cleared for this block: it is a foreign address now
                     char* q = S.route == 2 ? (char*)cpputest_realloc_location(S.p, o.c == -1 ? S.size : (size_t)o.c, file, line) : det.reallocMemory(W.famAllocator[2], S.p, o.c == -1 ? S.size : (size_t)o.c, file, line, S.route == 1);
@@ -736,7 +739,7 @@ struct Engine : public vf::Engine {
                 if (oomRealloc) fail(W, "C15", "designated_failure", sg2("op", on, "what", "reallocation succeeded while out of memory is simulated"), sfmt("op %zu", oi));
                 else if (expectNull && !tooBig) fail(W, "C05", "injected_failure", sg2("op", on, "what", "platform realloc failed but a block was returned"), sfmt("op %zu", oi));
                 MBlock old = S;
-                S.p = np; S.size = size; S.number = W.seq++; S.file = file; S.line = line; S.period = W.period; S.stage = W.stage; S.allocator = fa; S.allocName = fa->alloc_name(); S.guardDirty = false;
+                S.p = np; S.size = size; S.number = W.seq++; S.file = file; S.line = line; S.period = W.period; S.stage = W.stage; S.allocator = fa; S.allocName = fa->alloc_name(); S.guardDirty = false; S.family = 2;
                 checkNewBlock(W, oi, on, np, size);
                 if (HEAP.find(np) && np + size <= HEAP.find(np)->base + HEAP.find(np)->size) {
                     size_t bad = 0; MBlock probeB = S; probeB.size = keep + 1;      // (+1: only the patterned prefix is compared, not a tail that was never filled)
